@@ -52,10 +52,11 @@ const (
 	Error      Kind = "error"  // t="e", <v> = error code (18.18.11: "e" cell containing an error)
 	Number     Kind = "num"    // t absent (default "n"); <v> = the number's lexical form
 	Blank      Kind = "blank"  // <c r=".." s=".."/> : a formatted cell without a value
+	Date       Kind = "date"   // t="d": <v> = a date in ISO 8601 form (18.18.11 "d"); displayed as written
 )
 
 // Kinds lists the value-carrying kinds (everything except Blank).
-var Kinds = []Kind{Shared, SharedRich, Inline, FormulaStr, FormulaNum, Bool, Error, Number}
+var Kinds = []Kind{Shared, SharedRich, Inline, FormulaStr, FormulaNum, Bool, Error, Number, Date}
 
 // ErrorCodes are the error values of 18.17.3 (error values) as Excel spells them.
 var ErrorCodes = []string{"#DIV/0!", "#N/A", "#NAME?", "#NULL!", "#NUM!", "#REF!", "#VALUE!"}
@@ -405,6 +406,10 @@ func (s Sheet) validate(part string) error {
 				return fmt.Errorf("cell %s: unknown error code %q", Ref(c.Col, c.Row), c.Text)
 			}
 		case Shared, Inline, Blank:
+		case Date:
+			if len(c.Text) < 10 {
+				return fmt.Errorf("cell %s: %q is no ISO 8601 date", Ref(c.Col, c.Row), c.Text)
+			}
 		case Number:
 		default:
 			return fmt.Errorf("cell %s: unknown kind %q", Ref(c.Col, c.Row), c.Kind)
@@ -717,6 +722,8 @@ func (b *builder) cellXML(sb *strings.Builder, p string, c *Cell) {
 		} else {
 			fmt.Fprintf(sb, `>%s`, v(c.Text))
 		}
+	case Date:
+		fmt.Fprintf(sb, ` t="d">%s`, v(c.Text))
 	case Bool:
 		fmt.Fprintf(sb, ` t="b">%s%s`, f, v(c.Text))
 	case Error:
